@@ -170,9 +170,12 @@ func c15One(e *core.Env, drv *core.Driver, cs c15Case, explore bool) (string, st
 		}
 	}
 	if key == "" {
-		// --inplace must leave exactly what the stdout mode prints
-		std := drv.Run(nil, args...)
-		drv.Files(map[string]string{"train.knut": cs.Training, "target.knut": cs.Target, "inplace.knut": cs.Target})
+		// --inplace must leave exactly what the stdout mode prints. The target gets a first
+		// line with a wide gap, so that the rewritten file is certainly shorter than the
+		// original one (a rewrite that does not replace the file as a whole leaves a tail).
+		wide := "2019-01-01 open" + strings.Repeat(" ", 200) + "Assets:Wide\n" + cs.Target
+		drv.Files(map[string]string{"train.knut": cs.Training, "target.knut": cs.Target, "wide.knut": wide, "inplace.knut": wide})
+		std := drv.Run(nil, "infer", "-t", "train.knut", "-a", cs.Placeholder, "wide.knut")
 		ip := drv.Run(nil, "infer", "-t", "train.knut", "-a", cs.Placeholder, "--inplace", "inplace.knut")
 		got, _ := drv.ReadFile("inplace.knut")
 		switch {
